@@ -47,6 +47,7 @@ MSG = 'TMsg'         # a message in a track as far as tracks.py / write_track lo
 OPT_INT = 'OptInt'    # None or an int (running_status_byte)
 INFILE = 'PyFile'     # a binary file being read: unread bytes and position (tell())
 EXTMSG = 'M'          # a message object built by code outside the translated fragment (passed in as `ext`)
+DICT = 'PyDict'       # a dict with string keys whose values are ints, strings or tuples of ints (a message dict)
 
 
 class Rec:
@@ -74,6 +75,8 @@ def lty(t):
         return '(Option Int)'
     if t == INFILE:
         return 'PyFile'
+    if t == DICT:
+        return 'PyDict'
     return t
 
 
@@ -113,9 +116,19 @@ class FnTranslator:
             return ('true' if v else 'false'), BOOL
         if isinstance(v, int):
             return f'({v} : Int)', INT
+        if isinstance(v, dict) and v and all(callable(x) for x in v.values()):
+            kt = INT if all(isinstance(k, int) for k in v) else STR
+            return self.tr.fn_table(self.unit.file, name, v), ('FnDict', kt, self.unit.file, name)
         if isinstance(v, dict) and v and all(isinstance(k, int) for k in v):
             return self.tr.table(name, v), ('Dict', None)
+        if isinstance(v, dict) and v and all(isinstance(k, str) for k in v):
+            return self.tr.table(name, v), ('DictS', None)
         if isinstance(v, (set, frozenset, list, tuple)) and all(isinstance(k, int) and not isinstance(k, bool) for k in v):
+            if len(v) > 16:
+                # a large set of ints (CHANNEL_MESSAGES): a named table, only ever used for membership
+                if name not in self.tr.tables:
+                    self.tr.tables[name] = f'def {name} : List Int :=\n  [' + ', '.join(str(k) for k in sorted(v)) + ']'
+                return name, LINT
             return '([%s] : List Int)' % ', '.join(str(k) for k in sorted(v)), LINT
         raise Untranslatable(f'global {name} of unsupported kind {type(v).__name__}')
 
@@ -168,12 +181,28 @@ class FnTranslator:
             base, t = self.expr(e.value)
             if t == SPECROW:
                 k = e.slice
-                if isinstance(k, ast.Constant) and k.value in ('length', 'type'):
-                    return f'{base}.{k.value}', (INT if k.value == 'length' else STR)
+                if isinstance(k, ast.Constant) and k.value in ('length', 'type', 'status_byte', 'value_names'):
+                    return f'{base}.{k.value}', {'length': INT, 'type': STR, 'status_byte': INT, 'value_names': LIST(STR)}[k.value]
                 raise Untranslatable('spec key')
             if isinstance(t, tuple) and t[0] == 'Dict':
                 k, kt = self.expr(e.slice)
                 return f'(← dictGet {base} {k})', SPECROW if t[1] is None else t[1]
+            if isinstance(t, tuple) and t[0] == 'DictS':
+                k, kt = self.expr(e.slice)
+                if kt != STR:
+                    raise Untranslatable('key type')
+                return f'(← dictGetS {base} {k})', SPECROW if t[1] is None else t[1]
+            if t == DICT:
+                # what the value is used as follows from the key: 'type' is the type name, 'data' the payload tuple, every
+                # other attribute of a message dict is an int
+                k, kt = self.expr(e.slice)
+                if kt != STR:
+                    raise Untranslatable('key type')
+                if isinstance(e.slice, ast.Constant) and e.slice.value == 'type':
+                    return f'(← dgetStr {base} {k})', STR
+                if isinstance(e.slice, ast.Constant) and e.slice.value == 'data':
+                    return f'(← dgetInts {base} {k})', LINT
+                return f'(← dgetInt {base} {k})', INT
             if isinstance(t, tuple) and t[0] == 'List':
                 s = e.slice
                 if isinstance(s, ast.Slice):
@@ -267,6 +296,10 @@ class FnTranslator:
                     r, rt = self.expr(rhs)
                     if isinstance(rt, tuple) and rt[0] == 'Dict':
                         c = f'(dictHas {r} {prev})'
+                    elif isinstance(rt, tuple) and rt[0] == 'DictS' and pt == STR:
+                        c = f'(dictHasS {r} {prev})'
+                    elif isinstance(rt, tuple) and rt[0] == 'FnDict' and pt == rt[1]:
+                        c = f'({"dictHas" if pt == INT else "dictHasS"} {r} {prev})'
                     elif rt == LINT and pt == INT:
                         c = f'(List.elem {prev} {r})'
                     else:
@@ -312,6 +345,28 @@ class FnTranslator:
             if any(t != t0 for _, t in xs):
                 raise Untranslatable('heterogeneous list')
             return '[' + ', '.join(x for x, _ in xs) + ']', LIST(t0)
+        if isinstance(e, ast.Dict) and getattr(self.unit, 'dicts', False):
+            items = []
+            for k, v in zip(e.keys, e.values):
+                if not (isinstance(k, ast.Constant) and isinstance(k.value, str)):
+                    raise Untranslatable('dict key')
+                items.append(f'("{k.value}", {self.dv(*self.expr(v))})')
+            return '(dfromPairs [' + ', '.join(items) + '])', DICT
+        if isinstance(e, ast.DictComp) and getattr(self.unit, 'dicts', False):
+            # {name: value for name, value in zip(names, data)}
+            g = e.generators[0] if len(e.generators) == 1 else None
+            if g is None or g.ifs or not (isinstance(g.target, ast.Tuple) and len(g.target.elts) == 2 and
+                                          all(isinstance(x, ast.Name) for x in g.target.elts)) \
+                    or not (isinstance(g.iter, ast.Call) and isinstance(g.iter.func, ast.Name) and g.iter.func.id == 'zip'
+                            and len(g.iter.args) == 2) \
+                    or not (isinstance(e.key, ast.Name) and e.key.id == g.target.elts[0].id
+                            and isinstance(e.value, ast.Name) and e.value.id == g.target.elts[1].id):
+                raise Untranslatable('dict comprehension form')
+            a, ta = self.expr(g.iter.args[0])
+            b, tb = self.expr(g.iter.args[1])
+            if ta != LIST(STR) or tb != LINT:
+                raise Untranslatable('dict comprehension over ' + str((ta, tb)))
+            return f'(dfromPairs (List.map (fun p => (p.1, DV.int p.2)) (List.zip {a} {b})))', DICT
         if isinstance(e, ast.Dict):
             # a record result: values in the order of the keys as written
             xs = [self.expr(v) for v in e.values]
@@ -326,7 +381,7 @@ class FnTranslator:
                 raise Untranslatable('if-expression types')
             return f'(if {c} then {a} else {b})', ta
         if isinstance(e, ast.ListComp):
-            if len(e.generators) != 1 or e.generators[0].ifs or not isinstance(e.generators[0].target, ast.Name):
+            if len(e.generators) != 1 or len(e.generators[0].ifs) > 1 or not isinstance(e.generators[0].target, ast.Name):
                 raise Untranslatable('comprehension form')
             g = e.generators[0]
             src, st = self.expr(g.iter)
@@ -335,7 +390,19 @@ class FnTranslator:
             v = g.target.id
             saved = self.env.get(v)
             self.env[v] = (v, st[1])
+            if g.ifs:
+                c = self.cond(g.ifs[0])
+                if '←' in c:
+                    raise Untranslatable('effect inside a comprehension filter')
+                src = f'(List.filter (fun {v} => {c}) {src})'
             body, bt = self.expr(e.elt)
+            if body == f'(← dgetInt {body[11:-1].split(" ")[0]} {v})' and '←' not in body[2:]:
+                # [msg[name] for name in names]: the lookups happen in order, the first failing one raises
+                if saved is None:
+                    del self.env[v]
+                else:
+                    self.env[v] = saved
+                return f'(← List.mapM (fun {v} => dgetInt {body[11:-1].split(" ")[0]} {v}) {src})', LIST(bt)
             if saved is None:
                 del self.env[v]
             else:
@@ -349,6 +416,17 @@ class FnTranslator:
 
     def call(self, e):
         f = e.func
+        if isinstance(f, ast.Subscript) and not e.keywords:
+            base, bt = self.expr(f.value)
+            if isinstance(bt, tuple) and bt[0] == 'FnDict':
+                k, kt = self.expr(f.slice)
+                if kt != bt[1]:
+                    raise Untranslatable('dispatch key type')
+                return self.fn_call(bt, k, [self.expr(a) for a in e.args])
+        if isinstance(f, ast.Name) and f.id in self.env and isinstance(self.env[f.id][1], tuple) and self.env[f.id][1][0] == 'FnVal' \
+                and not e.keywords:
+            t = self.env[f.id][1]
+            return self.fn_call(('FnDict', t[1], t[2], t[3]), t[5], [self.expr(a) for a in e.args])
         if isinstance(f, ast.Name):
             n = f.id
             if n == 'len' and len(e.args) == 1:
@@ -412,6 +490,13 @@ class FnTranslator:
                 return f'(← {u.lean_name} {flat})', u.ret
             raise Untranslatable('call of ' + n)
         if isinstance(f, ast.Attribute):
+            if f.attr == 'get' and len(e.args) == 1 and not e.keywords:
+                base, bt = self.expr(f.value)
+                if isinstance(bt, tuple) and bt[0] == 'FnDict':
+                    k, kt = self.expr(e.args[0])
+                    if kt != bt[1] or '←' in k and not k.startswith('(← dget'):
+                        raise Untranslatable('dispatch key')
+                    return '()', ('FnVal', bt[1], bt[2], bt[3], base, k)
             if f.attr == 'bit_length' and not e.args:
                 a, t = self.expr(f.value)
                 if t == INT:
@@ -517,9 +602,27 @@ class FnTranslator:
         self.env[tmp + '_v'] = (f'{tmp}.1', rt)
         return ast.Name(id=tmp + '_v', ctx=ast.Load())
 
+    def dv(self, a, t):
+        if t == INT:
+            return f'DV.int {a}'
+        if t == STR:
+            return f'DV.str {a}'
+        if t == LINT:
+            return f'DV.ints {a}'
+        raise Untranslatable('dict value of type ' + str(t))
+
+    def fn_call(self, fnd, key, args):
+        """TABLE[key](args) for a dict of functions: a generated dispatcher over the names in the table"""
+        _, kt, file, name = fnd[:4]
+        disp, rt = self.tr.dispatcher(self, file, name, kt, [t for _, t in args])
+        return f'(← {disp} {key} {" ".join(a for a, _ in args)})', rt
+
     def truth(self, a, t):
         if t == BOOL:
             return a
+        if isinstance(t, tuple) and t[0] == 'FnVal':
+            # `f = TABLE.get(k)` ... `if f:` - a function is true, None (key absent) is false
+            return f'({"dictHas" if t[1] == INT else "dictHasS"} {t[4]} {t[5]})'
         if t == INT:
             return f'({a} != 0)'
         if isinstance(t, tuple) and t[0] == 'List':
@@ -532,6 +635,23 @@ class FnTranslator:
 
     # ---------- statements --------------------------------------------------
     def assign_target(self, tgt, val, vt, ind, out):
+        if isinstance(tgt, ast.Name) and isinstance(vt, tuple) and vt[0] == 'FnVal':
+            # f = TABLE.get(key): the key is evaluated here (it may raise), the function is looked up where it is used
+            k = vt[5]
+            if '←' in k:
+                self.ntmp = getattr(self, 'ntmp', 0) + 1
+                tmp = f'k__{self.ntmp}'
+                out.append(f'{ind}let {tmp} ← {k[3:-1]}')
+                vt = vt[:5] + (tmp,)
+            self.env[tgt.id] = ('()', vt)
+            return
+        if isinstance(tgt, ast.Subscript) and isinstance(tgt.value, ast.Name) and self.env.get(tgt.value.id, (None, None))[1] == DICT \
+                and tgt.value.id in self.muts:
+            k, kt = self.expr(tgt.slice)
+            if kt != STR:
+                raise Untranslatable('dict key type')
+            out.append(f'{ind}{tgt.value.id} := dset {tgt.value.id} {k} ({self.dv(val, vt)})')
+            return
         if isinstance(tgt, ast.Name):
             n = tgt.id
             hint = getattr(self.unit, 'local_types', {}).get(n)
@@ -801,6 +921,13 @@ class FnTranslator:
                 if vt != LINT:
                     raise Untranslatable('write of ' + str(vt))
                 return [f'{ind}{f.value.id} := {f.value.id} ++ {v}']
+            if f.attr == 'update' and len(e.args) == 1 and not e.keywords and isinstance(f.value, ast.Name) \
+                    and self.env.get(f.value.id, (None, None))[1] == DICT and f.value.id in self.muts:
+                pre = []
+                v, vt = self.expr(e.args[0])
+                if vt != DICT:
+                    raise Untranslatable('update with ' + str(vt))
+                return pre + [f'{ind}{f.value.id} := dupdate {f.value.id} {v}']
             # xs.append(v) / xs.extend(ys) / xs.reverse() on a local list or a list field
             if f.attr in ('append', 'extend', 'reverse'):
                 tgt = f.value
@@ -849,7 +976,7 @@ class FnTranslator:
                     names.append(s.value.args[0].id)       # reading consumes: the file state changes
             elif isinstance(s, ast.AugAssign):
                 tg = s.target
-            elif isinstance(s, ast.Call) and isinstance(s.func, ast.Attribute) and s.func.attr in ('append', 'extend', 'reverse'):
+            elif isinstance(s, ast.Call) and isinstance(s.func, ast.Attribute) and s.func.attr in ('append', 'extend', 'reverse', 'update'):
                 tg = s.func.value
             while isinstance(tg, ast.Subscript):
                 tg = tg.value
@@ -1046,8 +1173,20 @@ class FnTranslator:
         return False
 
     # ---------- whole function ----------------------------------------------
+    RESERVED = {'end', 'from', 'do', 'then', 'at', 'by', 'have', 'show', 'fun', 'match', 'with', 'open', 'let', 'where',
+                'instance', 'deriving', 'def', 'theorem', 'if', 'else', 'for', 'in', 'return', 'mut', 'namespace', 'section'}
+
     def translate(self):
         u, fn = self.unit, self.fn
+        reserved = self.RESERVED
+
+        class Ren(ast.NodeTransformer):          # Python names that are Lean keywords get a trailing underscore
+            def visit_Name(self, n):
+                if n.id in reserved:
+                    return ast.copy_location(ast.Name(id=n.id + '_', ctx=n.ctx), n)
+                return n
+        src_text = textwrap.indent(ast.unparse(fn), '  -- ')
+        fn = self.fn = Ren().visit(fn)
         pnames = [a.arg for a in fn.args.args]
         params = []
         if u.cls is not None:
@@ -1116,7 +1255,7 @@ class FnTranslator:
             if any(is_file(t) for _, t in u.params):
                 rty = '(' + ' × '.join([rty] + [lty(t) for _, t in u.params if is_file(t)]) + ')'
         head = f'def {u.lean_name} {" ".join(params)} : Except Err {rty} := do'
-        src = textwrap.indent(ast.unparse(fn), '  -- ')
+        src = src_text
         return '\n\n'.join(self.aux + [f'/- {u.file}: {("class " + u.cls + ", ") if u.cls else ""}{u.name}\n{src}\n-/\n' + head + '\n' + '\n'.join(body)])
 
 
@@ -1137,16 +1276,73 @@ class Translator:
     def table(self, name, d):
         if name not in self.tables:
             rows = []
+            skey = all(isinstance(k, str) for k in d)
             for k in sorted(d):
                 v = d[k]
                 if isinstance(v, dict) and 'length' in v and 'type' in v:
                     ln = v['length']
                     ln = 0 if ln == float('inf') else int(ln)
-                    rows.append(f'({k}, ⟨"{v["type"]}", {ln}⟩)')
+                    vn = ', '.join('"%s"' % x for x in v.get('value_names', ()))
+                    key = f'"{k}"' if skey else str(k)
+                    rows.append(f'({key}, {{ type := "{v["type"]}", length := {ln}, status_byte := {int(v.get("status_byte", 0))}, '
+                                f'value_names := [{vn}] }})')
                 else:
                     raise Untranslatable(f'table {name} has rows of unsupported kind')
-            self.tables[name] = f'def {name} : List (Int × SpecRow) :=\n  [' + ', '.join(rows) + ']'
+            self.tables[name] = f'def {name} : List ({"String" if skey else "Int"} × SpecRow) :=\n  [' + ', '.join(rows) + ']'
         return name
+
+    def fn_table(self, file, name, d):
+        """a dict of functions: key -> NAME of the function (the dispatcher generated where it is called matches on it)"""
+        lname = os.path.basename(file)[:-3] + '_' + name.lstrip('_')
+        if lname not in self.tables:
+            skey = all(isinstance(k, str) for k in d)
+            rows = ', '.join((f'("{k}", "{d[k].__name__}")' if skey else f'({k}, "{d[k].__name__}")') for k in sorted(d))
+            self.tables[lname] = f'def {lname} : List ({"String" if skey else "Int"} × String) :=\n  [' + rows + ']'
+            self.fn_names = getattr(self, 'fn_names', {})
+            self.fn_names[(file, name)] = (lname, sorted({f.__name__ for f in d.values()}))
+        return lname
+
+    def dispatcher(self, ft, file, name, kt, argtypes):
+        """def <table>.call key args: looks the function's name up (KeyError if absent) and calls its translation"""
+        lname, fnames = self.fn_names[(file, name)]
+        dname = lname + '.call'
+        self.dispatchers = getattr(self, 'dispatchers', {})
+        if dname in self.dispatchers:
+            return dname, self.dispatchers[dname]
+        want_dict = getattr(ft.unit, 'dicts', False)
+        arms, rts = [], set()
+        for fname in fnames:
+            cands = [u for u in self.units if u.name == fname and u.file == file and u.cls is None and not getattr(u, 'pycls', None)]
+            pref = [u for u in cands if bool(getattr(u, 'dicts', False)) == want_dict] or cands
+            if not pref:
+                raise Untranslatable(f'{fname} (in {name}) is not translated')
+            u = pref[0]
+            if len(u.params) != len(argtypes):
+                raise Untranslatable(f'{fname}: number of arguments')
+            call = []
+            for i, ((pn, pt), at) in enumerate(zip(u.params, argtypes)):
+                if isinstance(pt, Rec) and at == DICT:
+                    for k, kty in pt.fields.items():
+                        g = {INT: 'dgetInt', STR: 'dgetStr', LINT: 'dgetInts'}.get(kty)
+                        if g is None:
+                            raise Untranslatable('record field type')
+                        call.append(f'(← {g} a{i} "{k}")')
+                elif pt == at:
+                    call.append(f'a{i}')
+                else:
+                    raise Untranslatable(f'{fname}: argument {pn} is {pt}, given {at}')
+            rts.add(str(u.ret))
+            ret = u.ret
+            arms.append(f'  | "{fname}" => {u.lean_name} {" ".join(call)}')
+        if len(rts) != 1:
+            raise Untranslatable(f'functions in {name} return different types')
+        params = ' '.join(f'(a{i} : {lty(t)})' for i, t in enumerate(argtypes))
+        get = 'dictGet' if kt == INT else 'dictGetS'
+        text = (f'/-- `{name}[key](…)` of {file} -/\ndef {dname} (key : {lty(kt)}) {params} : Except Err {lty(ret)} := do\n'
+                f'  match (← {get} {lname} key) with\n' + '\n'.join(arms) + '\n  | _ => throw Err.Other')
+        ft.aux.append(text)
+        self.dispatchers[dname] = ret
+        return dname, ret
 
     def name_tables(self):
         """dispatch tables of the source: which function serves which key (function names only)"""
@@ -1203,7 +1399,7 @@ class Translator:
     GROUPS = {'mido/messages/encode.py': 'Codec', 'mido/messages/decode.py': 'Codec', 'mido/messages/checks.py': 'Codec',
               'mido/tokenizer.py': 'Tok', 'mido/midifiles/meta.py': 'MetaNum', 'mido/midifiles/tracks.py': 'Tracks',
               'mido/midifiles/midifiles.py': 'FileIO'}
-    DEPS = {'Codec': [], 'Tok': [], 'MetaNum': [], 'Tracks': [], 'FileIO': ['MetaNum', 'Tracks']}
+    DEPS = {'Codec': [], 'Msg': ['Codec'], 'Tok': [], 'MetaNum': [], 'Tracks': [], 'FileIO': ['MetaNum', 'Tracks']}
 
     def run_groups(self):
         """one generated file per group of source files, so that a function that cannot be translated (or an edit that
@@ -1212,7 +1408,7 @@ class Translator:
         structs = {}
         per = {g: [] for g in self.DEPS}
         for u in self.units:
-            g = self.GROUPS[u.file]
+            g = getattr(u, 'group', None) or self.GROUPS[u.file]
             defs = per[g]
             if u.cls is not None and u.self_type not in structs:
                 fl = '\n'.join(f'  {k} : {lty(t)} := {dflt}' for k, (t, dflt) in u.field_defaults.items())
@@ -1289,6 +1485,20 @@ def units():
     U.append(Unit(D, '_decode_quarter_frame_data', [('data', LINT)], ('Tuple', [INT, INT])))
     U.append(Unit(D, '_decode_songpos_data', [('data', LINT)], INT))
     U.append(Unit(D, '_decode_pitchwheel_data', [('data', LINT)], INT))
+    # the message dict level: decode_message / encode_message and what they call, with dicts as dicts
+    for n in ('_decode_sysex_data', '_decode_quarter_frame_data', '_decode_songpos_data', '_decode_pitchwheel_data'):
+        u = Unit(D, n, [('data', LINT)], DICT, lean_name=n + '.d')
+        u.dicts, u.group = True, 'Msg'
+        U.append(u)
+    u = Unit(D, '_decode_data_bytes', [('status_byte', INT), ('data', LINT), ('spec', SPECROW)], DICT)
+    u.dicts, u.group = True, 'Msg'
+    U.append(u)
+    u = Unit(D, 'decode_message', [('msg_bytes', LINT), ('time', INT)], DICT)
+    u.dicts, u.group, u.consts = True, 'Msg', {'check': True}
+    U.append(u)
+    u = Unit(E, 'encode_message', [('msg', DICT)], LINT)
+    u.dicts, u.group = True, 'Msg'
+    U.append(u)
     C = 'mido/messages/checks.py'
     for n in ('check_channel', 'check_pos', 'check_pitch', 'check_frame_type', 'check_frame_value', 'check_data_byte'):
         U.append(Unit(C, n, [({'check_channel': 'channel', 'check_pos': 'pos', 'check_pitch': 'pitch'}.get(n, 'value'), INT)], NONE))
